@@ -194,4 +194,18 @@ PROPS = {
         "text": "Same multiset of rows with and without indexes; with an order clause the same sequence of sort keys (limit/offset compared as sort-key sequences only); a request must not fail only on the indexed node; a unique index rejects a local write exactly when the model says a live document holds the same non-null value (composite: same tuple with every component non-null).",
         "note": "Four known findings are listed in known_findings.txt (array _all, JSON top-level scalars, index on a counter, _in with order); two thirds of the plans avoid those features so that the rest of the space is explored undisturbed. A mismatch found with a compound request is attributed to a single condition when that condition alone reproduces it.",
     },
+    "C09": {
+        "engine": "E5", "level": "exploration", "design_ref": "DESIGN.md §5 C09",
+        "technique": "deterministic simulation: one node queried from both sides of every relation after each step of a seeded link/unlink/delete/merge/index-DDL/restart history, against a relation model (child -> parent map) kept by the harness",
+        "rule": ("topologies: one-to-many (User-Book), second hop (Library-Book), one-to-one (Person-Passport), self reference (Node.parent/child); histories of 8-40 steps: create, link, re-link, unlink (null), delete either side, "
+                 "remote commits merged in either order, explicit transactions (commit/discard), indexes on the foreign key / on the filtered fields toggled in mid-history, restarts. "
+                 "distinct_nontrivial = distinct (step kind, active index set) pairs at which the full set of both-side queries agreed with the model"),
+        "real_vs_stub": "real: planner joins (typeJoinOne/Many, inversion through indexes), relation validation on save, index maintenance, merges; stub: remote commits by block copy + synchronous merge hook, restart = log replay",
+        "assumptions": ASSUME_COMMON,
+        "probes": ["checkpoints", "queries", "remote_merges", "one_to_one_rejects"],
+        "quick": {"count": 10, "budget_s": 70, "workers": 16},
+        "thorough": {"count": 100000, "budget_s": 1500, "workers": 16},
+        "text": "After every step: Parent{children} == model == Child{parent} == Child(filter:{parent_id}); _count through the relation equals the listed children; filters through the relation (parent by child field, child by parent field, with order) agree with the model from both sides, with and without indexes; both sides of the one-to-one and self-referencing relations agree and no target is referenced by two live documents after a local write (a write that would do so must be rejected).",
+        "note": "A child whose relation field points to a deleted parent must appear under no parent. Remote merges are not subject to the one-to-one clause (the statement speaks of local writes).",
+    },
 }
